@@ -694,4 +694,48 @@ OBJECT_MUTANTS = [
 ]
 MUTANTS += OBJECT_MUTANTS
 
+LEDGER_MUTANTS = [
+    dict(id="c06-new-assert", props=["C06"], rule="X1", names="process_primitive",
+         edits=[(MARSHAL, "    value_typed = tpm_type(value)\n", "    assert value != 0xDEADBEEF\n    value_typed = tpm_type(value)\n")]),
+    dict(id="c06-runtime-error", props=["C06"], rule="X1", names="RuntimeError",
+         edits=[(MARSHAL, "        elements.append(element_value)\n        index += 1\n", "        elements.append(element_value)\n        index += 1\n        if index > 64:\n            raise RuntimeError(\"too many sessions\")\n")]),
+    dict(id="c06-list-size-missing", props=["C06"], rule="X1", names="T5",
+         edits=[(STRUCT, '        "sha3_512": 64,\n    }\n    _selected_by', '    }\n    _selected_by')]),
+    dict(id="c06-count-after-list", props=["C06"], rule="X1", names="T3",
+         edits=[(STRUCT, "class TPML_DIGEST:\n    count: UINT32\n    digests: list[TPM2B_DIGEST]\n", "class TPML_DIGEST:\n    digests: list[TPM2B_DIGEST]\n    count: UINT32\n")]),
+    dict(id="c06-early-values-read", props=["C06"], rule="X1", names="process_command",
+         edits=[(MARSHAL, '        if field.name == "authorizationArea":\n            array_size_constraint = authorization_area_constraint\n', '        if field.name == "parameters" and values["authSize"] == 0:\n            pass\n        if field.name == "authorizationArea":\n            array_size_constraint = authorization_area_constraint\n')]),
+    dict(id="c06-encrypted-regress", props=["C06"], rule="X1", names="TPMS_PARAMS.encrypted",
+         edits=[(PARAMS, """        params = getattr(cls, "__annotations__", {})
+        if not params or not list(params.values())[0].__name__.startswith("TPM2B"):
+            # only a leading TPM2B parameter can be encrypted, otherwise the area is plain
+            return cls
+""", """        params = cls.__annotations__
+        assert list(params.values())[0].__name__.startswith("TPM2B")
+""")]),
+    dict(id="c06-by-value-uncaught", props=["C06"], rule="X1", names="by_value",
+         edits=[(VALUES, """                try:
+                    instance = type(self).by_value(value)
+                    self._name = instance._name
+                    self._value = instance._value
+                except ValueError:
+                    # value is unknown
+                    self._name = None
+                    self._value = value
+""", """                instance = type(self).by_value(value)
+                self._name = instance._name
+                self._value = instance._value
+""")]),
+    dict(id="c06-empty-session-element", props=["C06"], rule="X2", names="authorizationArea",
+         edits=[(CMDI, "    authorizationArea: list[TPMS_AUTH_COMMAND]\n", "    authorizationArea: list[TPMS_EMPTY]\n"),
+                (CMDI, "from ..structures.structures import TPMS_AUTH_COMMAND\n", "from ..structures.structures import TPMS_AUTH_COMMAND, TPMS_EMPTY\n")]),
+    dict(id="c06-spin-loop", props=["C06"], rule="X2", names="loop",
+         edits=[(MARSHAL, "    elements = tpm_type()\n    for index in range(count):", "    elements = tpm_type()\n    while count is None:\n        pass\n    for index in range(count):")]),
+    dict(id="c06-unselectable-value", props=["C06", "C20"], rule={"C06": "X1", "C20": "T4"}, names="T4",
+         edits=[(ALGO, '        "kdf2": TPM_ALG.KDF2,\n', '', 0)], skip_if_missing=True),
+    dict(id="c06-benign-message", props=["C06", "C08"], benign=True,
+         edits=[(CONSTR, '"Cannot assert the end of a constraint before having initialized it."', '"assert_done() before set_constraint()"')]),
+]
+MUTANTS += LEDGER_MUTANTS
+
 MUTANTS = [m for m in MUTANTS if not m.get("skip_if_missing")]
